@@ -1,5 +1,6 @@
 import Rtsp.Proofs.Peer.ClientHist
 import Rtsp.Proofs.Peer.SessionThm
+import Rtsp.Proofs.Peer.History
 /-
 Property C19 — media and control are bound to the negotiated peer.
 
@@ -12,7 +13,9 @@ nothing is bounded.
   UDP, server     fill_injective_mod_v4mapped, server_delivers_iff_registered,
                   foreign_source_no_effect, negotiated_source_effect
   UDP, client     client_filter, client_strict_history, anyport_latches_first, client_foreign_ip_history
-  control         other_ip_rejected_unchanged, other_conn_rejected_unchanged
+  control         other_ip_rejected_unchanged, other_conn_rejected_unchanged,
+                  linked_only_to_own_address (invariant over all histories),
+                  driven_only_from_author_address (non-interference in every reachable state)
   structure       facts_hold (the regenerated structural facts the models rely on)
 -/
 namespace Rtsp.Peer.C19
@@ -275,5 +278,44 @@ example :
     ((({} : Server).openConn 0 [10,0,0,5] "" |>.request 0 { method := .setup, proto := .tcp } 1).1
       |>.openConn 1 [0,0,0,0,0,0,0,0,0,0,0xff,0xff,10,0,0,5] "" |>.request 1 { method := .play, sid := some 0 } 2).2 = 200 := by
   decide
+
+/-! ## control: over all histories -/
+
+/-- **In every reachable state a connection is linked only to sessions of its own address.**  For every
+history of accepted connections, requests (any method, any Session header, any parameters) and
+connection closures, starting from `Start()`: if a live connection is linked to a session
+(`sc.session`) that still exists, then the connection's address `Equal`s the author's and the zones
+agree.  (`linked` is what lets a connection skip the author check of `findOrCreateSession`.) -/
+theorem linked_only_to_own_address (udp : Bool) (evs : List Server.Ev) (cid : Nat) (c : Conn) (own : Nat) (o : Session)
+    (hc : (Server.runEvs udp evs).findConn cid = some c) (hl : c.session = some own)
+    (ho : (Server.runEvs udp evs).findSession own = some o) :
+    ipEqual c.ip o.authorIP = true ∧ c.zone = o.authorZone :=
+  ((Server.inv_runEvs udp evs).link cid c hc own hl).2 o ho
+
+/-- **A session can be driven only from the address that created it.**  In every reachable state,
+whatever a live connection `c` sends – any method, any Session header (stolen, unknown or none),
+whether `c` is linked to a session or not – every session `o` whose author address is not `Equal` to
+`c`'s address (or whose zone differs) has exactly the same record afterwards: state, transport, set-up
+medias, pin, associated connections and last-request time. -/
+theorem driven_only_from_author_address (udp : Bool) (evs : List Server.Ev) (c : Conn) (r : Req) (now : Int) (o : Session)
+    (hc : (Server.runEvs udp evs).findConn c.id = some c)
+    (ho : (Server.runEvs udp evs).findSession o.id = some o)
+    (hfor : ipEqual c.ip o.authorIP = false ∨ c.zone ≠ o.authorZone) :
+    ((Server.runEvs udp evs).request c.id r now).1.findSession o.id = some o := by
+  apply Server.request_frame (Server.inv_runEvs udp evs) c r now o hc ho
+  intro hs
+  rcases hfor with h | h
+  · rw [hs.1] at h; cases h
+  · exact h hs.2
+
+/-- non-vacuity: the history that leads to `svPinned`; connection 2 (10.0.0.6) owns nothing and replays
+the id; the record of session 0 is what it was -/
+example :
+    let evs : List Server.Ev := [.open 0 [10,0,0,5] "", .req 0 { method := .setup, proto := .tcp, media := 0 } 1,
+      .req 0 { method := .play, sid := some 0 } 2, .open 1 [0,0,0,0,0,0,0,0,0,0,0xff,0xff,10,0,0,5] "", .open 2 [10,0,0,6] ""]
+    Server.runEvs true evs = svPinned ∧
+    (Server.runEvs true evs).findConn 2 = some ⟨2, [10,0,0,6], "", none⟩ ∧
+    ((Server.runEvs true evs).findSession 0).isSome = true ∧
+    ((Server.runEvs true evs).findConn 0).map (·.session) = some (some 0) := by decide
 
 end Rtsp.Peer.C19
